@@ -516,6 +516,24 @@ func init() {
 					}
 				}
 			}
+			// probes that are a valid version followed (or preceded) by raw printable bytes: the probe is
+			// accepted exactly when the scheme's ecosystem accepts it (`1.5.0+`, `1.5.0-`, `1.5.0..`)
+			for _, scheme := range versSchemes {
+				eco := schemeEco[scheme]
+				ts := versVersionTemplates(scheme, "thorough")
+				pr := "{[\\x21-\\x7e]}"
+				tails := []string{ts[0] + pr, ts[0] + pr + pr, pr + ts[0], ts[0] + "{[+\\-.~_]}{[0-9a-z+\\-.~_]}{[0-9a-z+\\-.~_]}"}
+				if tier == "thorough" {
+					tails = append(tails, ts[1]+pr, ts[1]+pr+pr, ts[0]+pr+pr+pr)
+				}
+				for _, v := range tails {
+					out = append(out, &Config{ID: fmt.Sprintf("C17/route/%s/probe/%s", scheme, v), Pkg: zzhPkg, Func: "C17Route", Args: []ArgSpec{ArgStr(eco), ArgStr(scheme), ArgStr(">="), ArgTmpl(ts[0]), ArgTmpl(v)}})
+					if !strings.Contains(v, "x21") {
+						// bounds: version alphabet only ('|', '*', brackets are VERS / range syntax there)
+						out = append(out, &Config{ID: fmt.Sprintf("C17/route/%s/bound/%s", scheme, v), Pkg: zzhPkg, Func: "C17Route", Args: []ArgSpec{ArgStr(eco), ArgStr(scheme), ArgStr(">="), ArgTmpl(v), ArgTmpl(ts[0])}})
+					}
+				}
+			}
 			// raw heads and tails
 			n := 5
 			if tier == "thorough" {
@@ -529,7 +547,7 @@ func init() {
 			return out
 		},
 		Bounds: func(tier string) string {
-			return "single-point corruptions (delete / replace by any byte 0x00-0xff / insert any byte / insert any two-byte UTF-8 sequence) at every position of 2 (quick) / 3 (thorough) base ranges per scheme; raw ASCII heads, tails and scheme names up to 5 / 6 bytes; routing with 7 discriminating version templates x 3 comparators x 11 schemes; lone '*' not covered"
+			return "single-point corruptions (delete / replace by any byte 0x00-0xff / insert any byte / insert any two-byte UTF-8 sequence) at every position of 2 (quick) / 3 (thorough) base ranges per scheme; raw ASCII heads, tails and scheme names up to 5 / 6 bytes; routing with 7 discriminating version templates x 3 comparators x 11 schemes, and with probes that are a valid version plus 1-2 (3) raw printable bytes (bounds: plus 3 bytes of the version alphabet); lone '*' not covered"
 		},
 		Assume: []string{"mustError in harness/pkg/zzh/vers.go is the spec-side reading of the malformations listed in the property"},
 	})
